@@ -136,7 +136,7 @@ func Alphabet(c Cfg, depth int, fullOutcomeDepth int, macro bool) []Event {
 		es = append(es, Event{K: "M", A: o})
 	}
 	if c.Policy != "none" {
-		es = append(es, Event{K: "E"})
+		es = append(es, Event{K: "E"}, Event{K: "L"})
 	}
 	seen := map[int64]bool{}
 	ds := []int64{1, PingPeriod, 2*PingPeriod + 1, int64(c.DownAfter) - 1, int64(c.DownAfter)}
@@ -364,7 +364,7 @@ func Main(p *Plan) {
 	r.Set("max_depth", maxDepth)
 	r.Set("depth_bound", p.Depth)
 	r.Set("configs", per)
-	r.Set("explanation", fmt.Sprintf("BFS over event histories (replica probe round with 13 scripted outcomes below depth %d and 5 representative ones from there on, 6 healthy rounds in a row for the gradual policy, master probe round ok/fail, client connection error, clock advances) to depth %d per configuration; every history is replayed on a fresh real Slice whose real health-check loop runs one tick of its ticker per round; states = distinct canonical (implementation state | reference state) keys; transitions = histories replayed = traces validated; distinct_nontrivial = distinct reached states in which a node is down, the breaker has fired or a recovery penalty is pending; distinct_outcomes = distinct (event kind, status change, deciding rule) observations", p.FullDepth, p.Depth))
+	r.Set("explanation", fmt.Sprintf("BFS over event histories (replica probe round with 13 scripted outcomes below depth %d and 5 representative ones from there on, 6 healthy rounds in a row for the gradual policy, master probe round ok/fail, client connection error through GetSlaveConn, late connection error through getConnWithFuse on the replica whatever its status, clock advances) to depth %d per configuration; every history is replayed on a fresh real Slice whose real health-check loop runs one tick of its ticker per round; states = distinct canonical (implementation state | reference state) keys; transitions = histories replayed = traces validated; distinct_nontrivial = distinct reached states in which a node is down, the breaker has fired or a recovery penalty is pending; distinct_outcomes = distinct (event kind, status change, deciding rule) observations", p.FullDepth, p.Depth))
 	for _, a := range p.Assume {
 		r.Assume(a)
 	}
